@@ -162,7 +162,7 @@ func Load(cfg LoadCfg) (*Ctx, error) {
 		}
 		known = known2
 	}
-	for round := 0; round < 5; round++ {
+	for round := 0; round < 7; round++ {
 		ov, ns := inlineNewHelpers(c, known, &seq)
 		notes = append(notes, ns...)
 		if len(ov) == 0 {
@@ -189,6 +189,13 @@ func Load(cfg LoadCfg) (*Ctx, error) {
 		c = c2
 		c.IdentNow = identNow
 		setRenames(c, renamed)
+		if os.Getenv("FPCHECK_DUMP_OVERLAY") != "" {
+			for k, v := range cfg2.Overlay {
+				if !strings.Contains(k, "zz_ref_") {
+					os.WriteFile("/tmp/fpoverlay_"+filepath.Base(k), v, 0o644)
+				}
+			}
+		}
 	}
 	notes = append(notes, detectFieldRenames(c)...)
 	c.InlineNotes = uniq(notes)
